@@ -718,7 +718,7 @@ func probe(st *hstate, a []string) []string {
 		}
 		res = append(res, fmt.Sprintf("next => ok %d", next))
 		off := int64(klevdb.OffsetOldest)
-		for i := 0; i < 100000; i++ {
+		for i := int64(0); i < next+4; i++ {
 			n, ms, err := l.Consume(off, 7)
 			if err != nil {
 				res = append(res, fmt.Sprintf("scan %d => err %s", off, errClass(err)))
@@ -728,8 +728,8 @@ func probe(st *hstate, a []string) []string {
 			if n >= next && len(ms) == 0 {
 				break
 			}
-			if n == off && len(ms) == 0 {
-				break
+			if off >= 0 && n <= off {
+				break // no progress: stop (the cursor contract is checked by the property evaluation)
 			}
 			off = n
 		}
